@@ -337,8 +337,12 @@ for n in range(0, 3):
             c.setup = setup
             con.cases.append(c)
 
-I.SUBSCRIPT_MODELS[TypeQualifier] = _signal_subscript
-I.CTOR_MODELS[TypeQualifier] = _signal_ctor
+# case-level (interp_flags of the template cases above): the models of qualified types other contract modules register globally
+# (c13_types: the lattice; c04_misc: reset signals) stay in force for THEIR contracts
+for _c in con.cases:
+    _c.interp_flags = {**getattr(_c, "interp_flags", {}), "subscript_models": {TypeQualifier: _signal_subscript}, "ctor_models": {TypeQualifier: _signal_ctor}}
+I.SUBSCRIPT_MODELS.setdefault(TypeQualifier, _signal_subscript)
+I.CTOR_MODELS.setdefault(TypeQualifier, _signal_ctor)
 
 
 # ---- (d) Entity.__init__: association of formals and actuals -----------------------------------------------------------
